@@ -439,7 +439,7 @@ class SStr:
         for it in self.items:
             if isinstance(it, SChar) and e.decide(it.code >= 128):
                 raise SxUnsupported("int() of text with a possibly non-ASCII symbolic character")
-        items = list(self.strip().items)
+        items = list(self.strip(" \t\n\r\x0b\x0c").items)      # int() ignores surrounding ASCII white space (not \x1c-\x1f)
 
         def cls(it, chars):
             return (it in chars) if isinstance(it, str) else it._class(chars)
@@ -493,7 +493,7 @@ class SStr:
         for it in items:
             if isinstance(it, SChar) and e.decide(it.code >= 128):
                 raise SxUnsupported("float() of text with a possibly non-ASCII symbolic character")
-        items = list(self.strip().items)          # float() ignores surrounding white space
+        items = list(self.strip(" \t\n\r\x0b\x0c").items)          # float() ignores surrounding ASCII white space (not \x1c-\x1f, unlike str.strip)
         i, n = 0, len(items)
         neg = False
         if i < n and cls(items[i], "+-"):
@@ -522,9 +522,10 @@ class SStr:
                 raise ValueError("could not convert string to float: %s" % self)
         if i != n:
             # underscores between digits, surrounding white space, inf/nan words: not modelled symbolically
-            for it in items[i:]:
-                if cls(it, "_ \t\n\r\x0b\x0cinfatyINFATY"):
-                    raise SxUnsupported("float() of text with '_' / white space / inf / nan spelled by symbolic characters")
+            # (surrounding white space was stripped above; white space inside a numeral is invalid)
+            for it in items:
+                if isinstance(it, SChar) and cls(it, "_infatyINFATY"):
+                    raise SxUnsupported("float() of text with '_' / inf / nan spelled by symbolic characters")
             raise ValueError("could not convert string to float: %s" % self)
         key = ("float",) + tuple(it if isinstance(it, str) else id(it) for it in items)
         memo = e.scratch.setdefault("numeral_memo", {})
